@@ -69,6 +69,10 @@ HISTORIES = {
     'child-no-proposal': (CHILD_ALG_MISMATCH, [T('A', 'acquire'), D]),
     'timeout-child-rekey': ({}, [T('A', 'acquire'), D, T('A', 'expire_soft'), ('dropall',), ('ticks', 14, 2.1), D]),
     'timeout-ike-rekey': ({}, [T('B', 'rekey_ike'), ('dropall',), ('ticks', 14, 2.1), D]),
+    # a CHILD_SA rekey that may be REFUSED (the fault enumeration makes the peer's kernel refuse the new SAs; in the second history the two rekeys collide), then
+    # a plain creation on the same IKE_SA: creating a CHILD_SA removes no other pair
+    'rekey-then-new-child-keeps-the-others': ({}, [T('A', 'expire_soft'), D, ('new-child-keeps-others', 'A'), ('new-child-keeps-others', 'B')]),
+    'colliding-rekeys-then-new-child-keeps-the-others': ({}, [T('A', 'expire_soft'), T('B', 'expire_soft'), D, ('new-child-keeps-others', 'B'), ('new-child-keeps-others', 'A')]),
     'lost-response-then-retransmit': ({}, [T('A', 'acquire'), ('deliver', 0), ('dropall',), ('ticks', 2, 2.1), D]),
 }
 
@@ -138,6 +142,17 @@ def _run_history(name, seed, mons, fault, kw, script):
             for m_ in mons:
                 if hasattr(m_, 'forget'):
                     m_.forget(ep_)
+        elif act[0] == 'new-child-keeps-others':
+            sc.settle()
+            before = {n_: set(sc.ep(n_).kernel.sad) for n_ in 'AB'}
+            ids = {n_: [id(x) for x in sc.ep(n_).ctl.ike_sas if x.state.name == 'ESTABLISHED'] for n_ in 'AB'}
+            sc.trigger(act[1], 'acquire')
+            sc.sim.drain()
+            sc.settle()
+            same_ike = all(ids[n_] and ids[n_] == [id(x) for x in sc.ep(n_).ctl.ike_sas if x.state.name == 'ESTABLISHED'] for n_ in 'AB')
+            sc.ck_ = getattr(sc, 'ck_', None)
+            gone = {n_: sorted(repr(k) for k in before[n_] - set(sc.ep(n_).kernel.sad)) for n_ in 'AB'}
+            sc.new_child_checks = getattr(sc, 'new_child_checks', []) + [(act[1], same_ike, gone)]
         elif act[0] == 'dropall':
             sc.sim.net.clear()
         elif act[0] == 'ticks':
@@ -148,6 +163,18 @@ def _run_history(name, seed, mons, fault, kw, script):
     sc.settle()
     sc.equal_spi_children = sum(1 for r in sc.a.kernel.requests + sc.b.kernel.requests if r['msg'] and r['msg']['name'] == 'NEWSA' and r['msg']['sa']['id']['spi'][:3] == b'\x11\x22\x33')
     return sc
+
+
+def judge_new_child(ck, sc):
+    for who, same_ike, gone in getattr(sc, 'new_child_checks', []):
+        ck.count('new_child_keeps_others.checked')
+        if not same_ike:
+            ck.count('new_child_keeps_others.ike_sa_replaced_or_closed')       # its removal takes every SA with it: not judged here
+            continue
+        if any(gone.values()):
+            ck.violation('creating-a-child-sa-removed-another-pair-from-the-kernel', {'created_by': who, 'gone': gone}, sc.sim.case)
+        else:
+            ck.count('new_child_keeps_others.held')
 
 
 def run(ck):
@@ -163,6 +190,8 @@ def run(ck):
         counts = None
         if True:
             sc = run_history(name, base + hi, mons)
+            if ck.mine(n):
+                judge_new_child(ck, sc)
             counts = {e: len(sc.ep(e).kernel.requests) - len(sc.ep(e).boot_nl) for e in 'AB'}
             if ck.mine(n):
                 ck.count('histories.sas_installed_with_equal_spi_values', sc.equal_spi_children)
@@ -178,6 +207,7 @@ def run(ck):
                     if not ck.mine(n):
                         continue
                     sc = run_history(name, base + hi, mons, fault=(e, k, errno))
+                    judge_new_child(ck, sc)
                     hit = [r for r in sc.ep(e).kernel.requests if r.get('fault')]
                     ck.count('faults.injected' if hit else 'faults.not_reached')
                     if hit:
@@ -218,6 +248,7 @@ def hub_walks(ck, sad, base):
 
 def verdict(ck):
     ck.floor('hub walks', ck.counters['hub.walks'], 80)
+    ck.floor('CHILD_SA creations after a (possibly refused) rekey that left every other pair in the kernel', ck.counters['new_child_keeps_others.held'], 30)
     ck.floor('steps compared', ck.counters['sad.steps_checked'], 20000)
     ck.floor('non-empty equal comparisons', ck.counters['sad.equal_nonempty'], 10000)
     ck.floor('faults injected', ck.counters['faults.injected'], 150)
